@@ -411,12 +411,14 @@ matrix_case = st.fixed_dictionaries(
 
 
 def run(ctx):
-    cnt = ctx.each("sizes", size_blocks(ctx.tier), check_sizes, stop_after=4, timeout=900)
+    cnt = ctx.each("sizes", size_blocks(ctx.tier), check_sizes, stop_after=4, timeout=300)
     ctx.exhaustive["sizes"] = {"complete": True, "n_blocks": cnt, "bound": ("every length 0..1700" if ctx.tier == "thorough" else "every length 0..64 and +-6 around 660/768/1365/1410/1536") + " x {down, up} x 3 fragmentations; plus every (length, format) whose message is an exact multiple of the 1024-byte read size"}
     ctx.hyp("matrix", matrix_case, check_one, ctx.scale(120, 2500), timeout=120)
     bursts = [{"lens": lens, "frags": f} for lens in ([70_000, 10], [10, 70_000, 10], [150_000, 70_000], [3, 2, 1], [1500, 1500, 1500])
               for f in (FRAGSETS[0], {"c2s": [1024], "s2c": [1000, 24], "b2s": [1024], "s2b": [4096, 1, 1024]})]
-    ctx.each("burst", bursts, check_burst, stop_after=2, timeout=600)
+    # a backlog of several MB queued at once (more than any plausible per-connection buffer limit)
+    bursts.append({"lens": [800_000] * 8, "frags": {"c2s": [1024], "s2c": [65536], "b2s": [1024], "s2b": [65536]}})
+    ctx.each("burst", bursts, check_burst, stop_after=2, timeout=300)
     if ctx.tier == "thorough":
         big = [{"dir": "down", "len": L, "seed": 3, "fmt": ".fits", "frags": f, "observers": [{"type": "raw", "policy": "Only", "frag": [1024]}, {"type": "raw", "policy": None, "frag": [1024]}]}
                for L in (100_000, 250_000, 1_000_000, 2_000_000) for f in (FRAGSETS[0], {"c2s": [1024], "s2c": [1024], "b2s": [1024], "s2b": [4096, 1, 1024]})]
